@@ -9,6 +9,18 @@ fn background(rng: &mut Rng, words: usize) -> Vec<u64> {
     (0..words).map(|_| rng.word()).collect()
 }
 
+// one in-word select query; a panic (e.g. the bounds hook of the lookup tables) is itself a failing case
+fn sel_case(out: &mut Out, wv: u64, r: usize, stat: &str) {
+    let res = catch(|| unsafe { bits::select(wv, r) });
+    out.stat(stat);
+    match res {
+        Res::Ok(p) => out.case("sel", format!("CSel {} {} {} {}", PATH, n(wv), r, p),
+            format!("{{\"path\":{},\"n\":{},\"r\":{},\"out\":{}}}", PATH, wv, r, p), true),
+        Res::Panic(k, msg) => out.case("selcrash", format!("CSelCrash {} {} {} {}", PATH, n(wv), r, k),
+            format!("{{\"path\":{},\"n\":{},\"r\":{},\"panic\":{:?}}}", PATH, wv, r, msg), true),
+    }
+}
+
 pub fn run(rng: &mut Rng, out: &mut Out, thorough: bool, variant: &str) {
     // the full (offset, width) grid runs on one build in quick mode; the other builds sample it
     let full_grid = thorough || variant == "native_dev";
@@ -35,7 +47,7 @@ pub fn run(rng: &mut Rng, out: &mut Out, thorough: bool, variant: &str) {
                 };
                 let straddle = (off % 64) + w > 64;
                 out.stat(if straddle { "wr.straddle" } else { "wr.single" });
-                out.case("wr", format!("CWR {} {} {} {} {} {}", nlist(&a), off, v, w, nlist(&a2), r),
+                out.case("wr", format!("CWR {} {} {} {} {} {}", nlist(&a), off, n(v), w, nlist(&a2), n(r)),
                     format!("{{\"a\":{:?},\"off\":{},\"v\":{},\"w\":{},\"out_a\":{:?},\"out_r\":{}}}", a, off, v, w, a2, r), true);
             }
         }
@@ -66,6 +78,32 @@ pub fn run(rng: &mut Rng, out: &mut Out, thorough: bool, variant: &str) {
         sel_words.push(rng.word());
         sel_words.push(rng.next());
     }
+    // dense words (high ranks in every byte) and words whose low k bytes are full but for 0..2 holes:
+    // these reach every entry of the byte-count table of the portable path; all ranks are queried
+    let mut dense_words: Vec<u64> = Vec::new();
+    for _ in 0..(if thorough { 1500 } else { 150 }) {
+        dense_words.push(rng.next() | rng.next() | rng.next());
+        dense_words.push(rng.next() | rng.next() | rng.next() | rng.next());
+    }
+    for k in 1..=8u64 {
+        for holes in 0..=2u64 {
+            for _ in 0..(if thorough { 12 } else { 3 }) {
+                let mut w = if k == 8 { !0u64 } else { (1u64 << (8 * k)) - 1 };
+                for _ in 0..holes {
+                    w &= !(1u64 << rng.below(8 * k));
+                }
+                if k < 8 {
+                    w |= (rng.next() | 1) << (8 * k);
+                }
+                dense_words.push(w);
+            }
+        }
+    }
+    for wv in dense_words {
+        for r in 0..(wv.count_ones() as usize) {
+            sel_case(out, wv, r, if PATH == 0 { "sel.pdep.dense" } else { "sel.portable.dense" });
+        }
+    }
     for wv in sel_words {
         let ones = wv.count_ones() as usize;
         if ones == 0 {
@@ -73,10 +111,7 @@ pub fn run(rng: &mut Rng, out: &mut Out, thorough: bool, variant: &str) {
         }
         let ranks: Vec<usize> = if ones <= 6 || thorough { (0..ones).collect() } else { vec![0, 1, ones / 2, ones - 2, ones - 1, rng.below(ones as u64) as usize] };
         for r in ranks {
-            let p = unsafe { bits::select(wv, r) };
-            out.stat(if PATH == 0 { "sel.pdep" } else { "sel.portable" });
-            out.case("sel", format!("CSel {} {} {} {}", PATH, wv, r, p),
-                format!("{{\"path\":{},\"n\":{},\"r\":{},\"out\":{}}}", PATH, wv, r, p), true);
+            sel_case(out, wv, r, if PATH == 0 { "sel.pdep" } else { "sel.portable" });
         }
     }
     // ---- masks: all n in 0..=64
